@@ -124,13 +124,75 @@ func c16Selection(r *core.Run, p *core.Prog) {
 			}
 			return true
 		})
-		var posLoop *ast.RangeStmt
-		core.Walk(f.Decl.Body, false, func(x ast.Node) bool {
-			if rs, ok := x.(*ast.RangeStmt); ok && pos != nil && core.ObjOf(info, rs.X) == pos {
-				posLoop = rs
+		// the positive selection: a loop (range or index form) over the positive names, in the function itself or in a helper
+		// that receives the lister's list and the positive names; inside it 'any' yields the full list and listed names are
+		// kept only if the lister knows them
+		type posT struct {
+			fi       *types.Info
+			body     *ast.BlockStmt
+			all      types.Object
+			pos, end token.Pos // extent in f (the loop, or the call of the helper)
+			helper   bool
+		}
+		loopOver := func(fi *types.Info, root ast.Node, coll types.Object) (*ast.BlockStmt, token.Pos, token.Pos) {
+			var body *ast.BlockStmt
+			var ps, en token.Pos
+			core.Walk(root, false, func(x ast.Node) bool {
+				switch l := x.(type) {
+				case *ast.RangeStmt:
+					if core.ObjOf(fi, l.X) == coll {
+						body, ps, en = l.Body, l.Pos(), l.End()
+					}
+				case *ast.ForStmt:
+					if bc, ok := core.BinOp(l.Cond, token.LSS); ok {
+						if la, ok := lenArg(fi, stripConv(fi, bc.Y)); ok && core.ObjOf(fi, la) == coll {
+							body, ps, en = l.Body, l.Pos(), l.End()
+						}
+					}
+				}
+				return true
+			})
+			return body, ps, en
+		}
+		var posL *posT
+		if pos != nil && all != nil {
+			if b, ps, en := loopOver(info, f.Decl.Body, pos); b != nil {
+				posL = &posT{info, b, all, ps, en, false}
+			} else {
+				for _, c := range core.Calls(f.Decl.Body, false) {
+					fo, _ := core.Callee(info, c).(*types.Func)
+					h := p.FnOf(fo)
+					if h == nil {
+						continue
+					}
+					hs := h.Obj.Type().(*types.Signature)
+					var hPos, hAll types.Object
+					for ai, a := range c.Args {
+						if ai >= hs.Params().Len() {
+							break
+						}
+						switch core.ObjOf(info, a) {
+						case pos:
+							hPos = hs.Params().At(ai)
+						case all:
+							hAll = hs.Params().At(ai)
+						}
+					}
+					if hPos != nil && hAll != nil {
+						if b, _, _ := loopOver(h.Info(), h.Decl.Body, hPos); b != nil {
+							posL = &posT{h.Info(), b, hAll, c.Pos(), c.End(), true}
+							// the selection variable of f: what the helper's result is assigned to
+							core.Walk(f.Decl.Body, false, func(x ast.Node) bool {
+								if a, ok := x.(*ast.AssignStmt); ok && len(a.Lhs) == 1 && len(a.Rhs) == 1 && ast.Unparen(a.Rhs[0]) == ast.Expr(c) {
+									result = core.ObjOf(info, a.Lhs[0])
+								}
+								return true
+							})
+						}
+					}
+				}
 			}
-			return true
-		})
+		}
 		// negLoopIn: the loop over the negated names in fn (range loop, or index loop `i < len(neg)` with the element taken
 		// as neg[i]); returns the loop body, the element variable and the loop position
 		type negLoopT struct {
@@ -201,10 +263,21 @@ func c16Selection(r *core.Run, p *core.Prog) {
 			return nil
 		}
 		// the selection variable: assigned `all` inside the positive loop
-		if posLoop != nil {
-			core.Walk(posLoop.Body, false, func(x ast.Node) bool {
-				if a, ok := x.(*ast.AssignStmt); ok && len(a.Lhs) == 1 && len(a.Rhs) == 1 && all != nil && core.ObjOf(info, a.Rhs[0]) == all {
-					result = core.ObjOf(info, a.Lhs[0])
+		okAnySel := false
+		if posL != nil {
+			core.Walk(posL.body, false, func(x ast.Node) bool {
+				switch st := x.(type) {
+				case *ast.AssignStmt:
+					if len(st.Lhs) == 1 && len(st.Rhs) == 1 && core.ObjOf(posL.fi, st.Rhs[0]) == posL.all {
+						okAnySel = true
+						if !posL.helper {
+							result = core.ObjOf(info, st.Lhs[0])
+						}
+					}
+				case *ast.ReturnStmt:
+					if posL.helper && len(st.Results) >= 1 && core.ObjOf(posL.fi, st.Results[0]) == posL.all {
+						okAnySel = true
+					}
 				}
 				return true
 			})
@@ -213,31 +286,43 @@ func c16Selection(r *core.Run, p *core.Prog) {
 		if neg != nil && result != nil {
 			negL = findNeg(f, neg, result, 0)
 		}
-		if pos == nil || neg == nil || all == nil || posLoop == nil || negL == nil {
+		if pos == nil || neg == nil || all == nil || posL == nil || negL == nil {
 			r.Undecided(rule, "parseIfaceList:structure", where, "positive / negative selection loops not recognised")
 		} else {
-			r.Check(rule, "parseIfaceList:negations-after-selections", where, negL.pos > posLoop.End(), "negated names must be removed after all positive names (and 'any') were added")
+			r.Check(rule, "parseIfaceList:negations-after-selections", where, negL.pos > posL.end, "negated names must be removed after all positive names (and 'any') were added")
 			// positive loop: any -> result = all ; Contains(all, name) -> append
-			okAny, okKnown := result != nil, false
-			core.Walk(posLoop.Body, false, func(x ast.Node) bool {
-				if c, ok := x.(*ast.CallExpr); ok && core.CallName(info, c) == "slices.Contains" && len(c.Args) == 2 && core.ObjOf(info, c.Args[0]) == all {
+			okAny, okKnown := result != nil && okAnySel, false
+			core.Walk(posL.body, false, func(x ast.Node) bool {
+				if c, ok := x.(*ast.CallExpr); ok && core.CallName(posL.fi, c) == "slices.Contains" && len(c.Args) == 2 && core.ObjOf(posL.fi, c.Args[0]) == posL.all {
 					okKnown = true
 				}
 				return true
 			})
-			r.Check(rule, "parseIfaceList:any-selects-all", p.Rel(posLoop.Pos()), okAny, "'any' must select the lister's full interface list")
-			r.Check(rule, "parseIfaceList:unknown-names-dropped", p.Rel(posLoop.Pos()), okKnown, "a listed name is kept only if the lister knows it")
+			r.Check(rule, "parseIfaceList:any-selects-all", p.Rel(posL.pos), okAny, "'any' must select the lister's full interface list")
+			r.Check(rule, "parseIfaceList:unknown-names-dropped", p.Rel(posL.pos), okKnown, "a listed name is kept only if the lister knows it")
 			// negative loop: result = slices.DeleteFunc(result, func(v) bool { return v == notIface })
 			okDel := false
 			ni := negL.fn.Info()
 			negVar, nres := negL.elem, negL.res
+			// the selection may be worked on through a copy of the variable (`sel := result`, e.g. a parameter binding)
+			resAlias := map[types.Object]bool{nres: true}
+			core.Walk(negL.fn.Decl.Body, false, func(x ast.Node) bool {
+				if a, ok := x.(*ast.AssignStmt); ok && len(a.Lhs) == 1 && len(a.Rhs) == 1 && a.Tok == token.DEFINE {
+					if ro := core.ObjOf(ni, a.Rhs[0]); ro != nil && resAlias[ro] {
+						if lo := core.ObjOf(ni, a.Lhs[0]); lo != nil {
+							resAlias[lo] = true
+						}
+					}
+				}
+				return true
+			})
 			core.Walk(negL.body, false, func(x ast.Node) bool {
 				a, ok := x.(*ast.AssignStmt)
-				if !ok || len(a.Lhs) != 1 || len(a.Rhs) != 1 || core.ObjOf(ni, a.Lhs[0]) != nres {
+				if !ok || len(a.Lhs) != 1 || len(a.Rhs) != 1 || !resAlias[core.ObjOf(ni, a.Lhs[0])] {
 					return true
 				}
 				c, ok := a.Rhs[0].(*ast.CallExpr)
-				if !ok || core.CallName(ni, c) != "slices.DeleteFunc" || len(c.Args) != 2 || core.ObjOf(ni, c.Args[0]) != nres {
+				if !ok || core.CallName(ni, c) != "slices.DeleteFunc" || len(c.Args) != 2 || core.ObjOf(ni, c.Args[0]) != core.ObjOf(ni, a.Lhs[0]) {
 					return true
 				}
 				if fb, fi2 := funcBodyOf(p, ni, negL.fn.Decl.Body, c.Args[1]); fb != nil {
